@@ -623,7 +623,12 @@ def read_pandas(
             "in `sample` in the call to `read_csv`/`read_table`"
         )
 
-    header = b"" if header is None else parts[firstrow] + b_lineterminator
+    if header is None or firstrow >= len(parts):
+        # no header row, or it lies beyond the data: nothing to prepend (pandas
+        # reports a missing header row itself when it reads the sample below)
+        header = b""
+    else:
+        header = parts[firstrow] + b_lineterminator
 
     # Use sample to infer dtypes and check for presence of include_path_column
     head_kwargs = kwargs.copy()
